@@ -126,7 +126,8 @@ structure VS where
   del : Nat → Option Nat := fun _ => none        -- delegator ↦ shares (Dec)
   sinfo : Nat → Option SInfo := fun _ => none    -- delegator ↦ starting info
   slashes : List SlashEv := []
-  bonded : Bool := true        -- validator status Bonded (false: Unbonding, it left the active set)
+  bonded : Bool := true        -- validator status Bonded (false: Unbonding or Unbonded, it left the active set)
+  unbonded : Bool := false     -- status Unbonded: the unbonding period of a validator that left the active set is over
   ubHeight : Nat := 0          -- UnbondingHeight (set when the validator leaves the active set)
   jailed : Bool := false
   -- ghost totals (never read by the code paths)
@@ -354,8 +355,12 @@ AfterValidatorBonded are empty) -/
 def VS.endBlock (v : VS) (h : Nat) : VS :=
   let active := !v.jailed && decide (POWER_REDUCTION ≤ v.tokens)
   if v.bonded && !active then { v with bonded := false, ubHeight := h }
-  else if !v.bonded && active then { v with bonded := true }
+  else if !v.bonded && active then { v with bonded := true, unbonded := false }
   else v
+
+/-- `UnbondAllMatureValidators` once the unbonding period is over: a validator that is still out of the active set
+becomes Unbonded (its delegations and distribution records stay; it has delegator shares, so it is not removed) -/
+def VS.matureVal (v : VS) : VS := if v.bonded then v else { v with unbonded := true }
 
 def cmpShares (name : String) (a b : Nat) : Bool :=
   if name == "LT" then decide (a < b)
@@ -539,12 +544,26 @@ structure State where
   height : Nat := 1
   vs : Nat → VS := fun _ => {}
   allow : Nat → Nat → Nat → Nat := fun _ _ _ => 0      -- validator, owner, spender ↦ shares
-  redel : List (Nat × Nat × Nat × Nat) := []             -- (delegator, src, dst, creation height)
-  ubd : List (Nat × Nat × Nat) := []                     -- (delegator, validator, creation height)
+  redel : List (Nat × Nat × Nat × Nat) := []             -- (delegator, src, dst, creation height of the entry)
+  ubd : List (Nat × Nat × Nat × Nat) := []               -- (delegator, validator, creation height, balance); the
+                                                         -- entries one delegator creates at one validator within one
+                                                         -- block are ONE entry of the SDK record (balances added up)
   gain : Nat → Nat := fun _ => 0                         -- reward coins received per account
   spent : Nat → Nat := fun _ => 0                        -- coins bonded per account
+  returned : Nat → Nat := fun _ => 0                     -- coins of completed unbonding entries paid back per account
+  -- bank side: the module accounts the staking / distribution keepers move coins between
+  bondedPool : Nat := 0                                  -- balance of the `bonded_tokens_pool` module account
+  notBondedPool : Nat := 0                               -- balance of the `not_bonded_tokens_pool` module account
+  distrIn : Nat := 0                                     -- coins sent to the distribution module account (allocations)
+  distrOut : Nat := 0                                    -- coins the distribution module account paid out as rewards
+  burned : Nat := 0                                      -- coins burned by slashing (taken out of the supply)
 
 def MAX_ENTRIES : Nat := 7
+
+/-- Σ_{d < n} f d -/
+def sumTo : Nat → (Nat → Nat) → Nat
+  | 0, _ => 0
+  | n + 1, f => sumTo n f + f n
 
 inductive Op
   | delegate (d v amt : Nat)
@@ -557,6 +576,7 @@ inductive Op
   | alloc (v amt : Nat)
   | slash (v power factor : Nat)
   | block
+  | mature              -- the unbonding period passes, then the staking EndBlocker (`BlockValidatorUpdates`) runs
   | jail (v : Nat)      -- staking `Jail`: out of the power index; the status changes at the next validator-set update
   | unjail (v : Nat)    -- staking `Unjail`
 deriving Repr, DecidableEq
@@ -572,10 +592,50 @@ def genesisVS (op tokens rate : Nat) : VS :=
 /-- accounts `0 … nVal-1` are the validator operators (self-delegators), the rest are users -/
 def init (nAcc h0 : Nat) (vals : List (Nat × Nat)) : State :=
   { nAcc := nAcc, nVal := vals.length, height := h0,
-    vs := fun i => match vals[i]? with | some (t, r) => genesisVS i t r | none => {} }
+    vs := fun i => match vals[i]? with | some (t, r) => genesisVS i t r | none => {},
+    -- every genesis validator is Bonded: its tokens are in the bonded pool
+    bondedPool := sumTo vals.length (fun i => match vals[i]? with | some (t, _) => t | none => 0) }
 
 def State.setVS (s : State) (v : Nat) (x : VS) : State := { s with vs := setAt s.vs v x }
-def State.addGain (s : State) (d c : Nat) : State := { s with gain := setAt s.gain d (s.gain d + c) }
+/-- `c` reward coins leave the distribution module account for account `d` -/
+def State.addGain (s : State) (d c : Nat) : State :=
+  { s with gain := setAt s.gain d (s.gain d + c), distrOut := s.distrOut + c }
+
+/-- `amt` coins arrive from a delegator's account in the pool of a validator whose status is Bonded / not Bonded
+(`Delegate` with `subtractAccount`: `DelegateCoinsFromAccountToModule` to the bonded or the not-bonded pool) -/
+def State.poolAdd (s : State) (bonded : Bool) (amt : Nat) : State :=
+  { s with bondedPool := if bonded then s.bondedPool + amt else s.bondedPool,
+           notBondedPool := if bonded then s.notBondedPool else s.notBondedPool + amt }
+
+/-- `amt` tokens change holder from a validator / entry of status `src` to one of status `dst` (true = Bonded):
+`bondedTokensToNotBonded` / `notBondedTokensToBonded` / nothing (`Undelegate`, and `Delegate` without `subtractAccount`) -/
+def State.poolMove (s : State) (src dst : Bool) (amt : Nat) : State :=
+  { s with bondedPool := if src && !dst then s.bondedPool - amt else if !src && dst then s.bondedPool + amt else s.bondedPool,
+           notBondedPool := if src && !dst then s.notBondedPool + amt else if !src && dst then s.notBondedPool - amt
+                            else s.notBondedPool }
+
+/-- `burnBondedTokens` / `burnNotBondedTokens` of staking `Slash` -/
+def State.poolBurn (s : State) (bonded : Bool) (amt : Nat) : State :=
+  { s with bondedPool := if bonded then s.bondedPool - amt else s.bondedPool,
+           notBondedPool := if bonded then s.notBondedPool else s.notBondedPool - amt, burned := s.burned + amt }
+
+/-- Σ balances of unbonding-delegation entries -/
+def ubdTotal : List (Nat × Nat × Nat × Nat) → Nat
+  | [] => 0
+  | e :: es => e.2.2.2 + ubdTotal es
+
+/-- number of entries of the SDK's unbonding-delegation record of `(d, v)`: `UnbondingDelegation.AddEntry` merges the
+entries created at one height (and completion time) -/
+def State.ubdEntries (s : State) (d v : Nat) : Nat :=
+  (((s.ubd.filter (fun u => u.1 == d && u.2.1 == v)).map (fun u => u.2.2.1)).eraseDups).length
+
+/-- the tokens the validator-set update at the end of a block moves out of / into the bonded pool: those of the
+validators that leave / re-enter the active set (`bondedToUnbonding` → `bondedTokensToNotBonded(validator.Tokens)`,
+`unbondingToBonded` → `notBondedTokensToBonded`) -/
+def State.leaving (s : State) : Nat :=
+  sumTo s.nVal (fun i => if (s.vs i).bonded && !((s.vs i).endBlock s.height).bonded then (s.vs i).tokens else 0)
+def State.entering (s : State) : Nat :=
+  sumTo s.nVal (fun i => if !(s.vs i).bonded && ((s.vs i).endBlock s.height).bonded then (s.vs i).tokens else 0)
 
 def State.hasRecvRedel (s : State) (d v : Nat) : Bool := s.redel.any (fun r => r.1 == d && r.2.2.1 == v)
 
@@ -594,21 +654,23 @@ def State.exec (c : Cfg) (s : State) : Op → Except Err State
     if !(s.okAcc d && s.okVal v) || amt == 0 then .error .badArgs else
     match (s.vs v).delegate s.height d amt with
     | .error e => .error e
-    | .ok (v', r) => .ok { (s.setVS v v').addGain d r with spent := setAt s.spent d (s.spent d + amt) }
+    | .ok (v', r) =>
+      .ok { ((s.setVS v v').addGain d r).poolAdd (s.vs v).bonded amt with spent := setAt s.spent d (s.spent d + amt) }
   | .undelegate d v amt =>
     if !(s.okAcc d && s.okVal v) || amt == 0 then .error .badArgs else
     match (s.vs v).validateUnbond d amt with
     | .error e => .error e
     | .ok shares =>
-      let entries := (s.ubd.filter (fun u => u.1 == d && u.2.1 == v)).length
-      if MAX_ENTRIES ≤ entries then .error .sdk else
+      if MAX_ENTRIES ≤ s.ubdEntries d v then .error .sdk else
       match (s.vs v).unbond s.height d shares with
       | .error e => .error e
-      | .ok (v', _, r) =>
-        let s1 := (s.setVS v v').addGain d r
+      | .ok (v', ret, r) =>
+        -- the returned tokens wait in the not-bonded pool (`bondedTokensToNotBonded` when the validator is Bonded; the
+        -- tokens of any other validator are there already)
+        let s1 := ((s.setVS v v').addGain d r).poolMove (s.vs v).bonded false ret
         -- `Undelegate` stamps the entry with the current height and time whatever the validator's status (only a
         -- redelegation takes the source validator's UnbondingHeight, and redelegation entries never merge)
-        .ok { s1 with ubd := if s1.ubd.contains (d, v, s.height) then s1.ubd else s1.ubd ++ [(d, v, s.height)] }
+        .ok { s1 with ubd := s1.ubd ++ [(d, v, s.height, ret)] }
   | .redelegate d src dst amt =>
     if !(s.okAcc d && s.okVal src && s.okVal dst) || amt == 0 then .error .badArgs else
     match (s.vs src).validateUnbond d amt with
@@ -625,9 +687,15 @@ def State.exec (c : Cfg) (s : State) : Op → Except Err State
         match (s.vs dst).delegate s.height d ret with
         | .error e => .error e
         | .ok (vdst, r2) =>
-          let s1 := (((s.setVS src vsrc).setVS dst vdst).addGain d r1).addGain d r2
-          -- `Redelegation.AddEntry` always appends (only `UnbondingDelegation.AddEntry` merges entries of one block)
-          .ok { s1 with redel := s1.redel ++ [(d, src, dst, s.height)] }
+          -- `Delegate(…, tokenSrc = srcValidator.GetStatus(), dstValidator, subtractAccount = false)`
+          let s1 := ((((s.setVS src vsrc).setVS dst vdst).addGain d r1).addGain d r2).poolMove
+            (s.vs src).bonded (s.vs dst).bonded ret
+          -- `Redelegation.AddEntry` always appends (only `UnbondingDelegation.AddEntry` merges entries of one block);
+          -- `getBeginInfo`: the entry of a Bonded source is stamped with the current height, that of an Unbonding source
+          -- with the height at which the source validator left the active set
+          -- … and a redelegation away from an Unbonded source completes at once: no entry
+          .ok { s1 with redel := if (s.vs src).unbonded then s1.redel
+                                 else s1.redel ++ [(d, src, dst, if (s.vs src).bonded then s.height else (s.vs src).ubHeight)] }
   | .withdraw d v =>
     if !(s.okAcc d && s.okVal v) then .error .badArgs else
     match (s.vs v).withdrawMsg s.height d with
@@ -647,11 +715,28 @@ def State.exec (c : Cfg) (s : State) : Op → Except Err State
     let s1 : State := { s with allow := fun p q r => if p = v ∧ q = from_ ∧ r = spender then a' else s.allow p q r }
     s1.transferOp c from_ to v x
   | .alloc v amt =>
-    if !(s.okVal v) then .error .badArgs else .ok (s.setVS v ((s.vs v).alloc amt))
+    if !(s.okVal v) then .error .badArgs else .ok { s.setVS v ((s.vs v).alloc amt) with distrIn := s.distrIn + amt }
   | .slash v power factor =>
-    if !(s.okVal v) || decide (ONE < factor) then .error .badArgs else .ok (s.setVS v ((s.vs v).slash s.height power factor))
+    -- ("should not be slashing unbonded validator")
+    if !(s.okVal v) || decide (ONE < factor) || (s.vs v).unbonded then .error .badArgs else
+    -- the burnt tokens are taken out of the pool that holds the validator's tokens
+    .ok ((s.setVS v ((s.vs v).slash s.height power factor)).poolBurn (s.vs v).bonded
+      ((s.vs v).tokens - ((s.vs v).slash s.height power factor).tokens))
   -- end of block: the staking EndBlocker's validator-set update, then the next height
-  | .block => .ok { s with height := s.height + 1, vs := fun i => (s.vs i).endBlock s.height }
+  | .block => .ok { s with height := s.height + 1, vs := fun i => (s.vs i).endBlock s.height,
+                           bondedPool := s.bondedPool - s.leaving + s.entering,
+                           notBondedPool := s.notBondedPool + s.leaving - s.entering }
+  -- the unbonding period (21 days) passes and the staking EndBlocker runs: validator-set update as in `block`; the
+  -- validators that are still out of the active set become Unbonded; every unbonding-delegation entry is mature and is
+  -- paid back from the not-bonded pool; every redelegation entry is mature and is dropped; next height
+  | .mature =>
+    .ok { s with height := s.height + 1,
+                 -- a validator that leaves the active set in this very update has its unbonding period ahead of it
+                 vs := fun i => if (s.vs i).bonded then (s.vs i).endBlock s.height else ((s.vs i).endBlock s.height).matureVal,
+                 bondedPool := s.bondedPool - s.leaving + s.entering,
+                 notBondedPool := s.notBondedPool + s.leaving - s.entering - ubdTotal s.ubd,
+                 returned := fun d => s.returned d + ubdTotal (s.ubd.filter (fun u => u.1 == d)),
+                 ubd := [], redel := [] }
   | .jail v =>
     if !(s.okVal v) || (s.vs v).jailed then .error .badArgs
     else .ok (s.setVS v { s.vs v with jailed := true })
@@ -666,11 +751,6 @@ def State.step (c : Cfg) (s : State) (o : Op) : State :=
   | .error _ => s
 
 def State.run (c : Cfg) (s : State) (ops : List Op) : State := ops.foldl (State.step c) s
-
-/-- Σ_{d < n} f d -/
-def sumTo : Nat → (Nat → Nat) → Nat
-  | 0, _ => 0
-  | n + 1, f => sumTo n f + f n
 
 def VS.delSum (v : VS) (n : Nat) : Nat := sumTo n (fun d => (v.del d).getD 0)
 
